@@ -232,6 +232,19 @@ PROPS["C11"] = {
     "level_note": "Trusted: the walker (in-package, reads node structs). Keys ascend (engine's shared counter / WAL replay); random-order insertion is outside the property.",
 }
 
+PROPS["C19"] = {
+    "kind": "csvimport", "test": "TestVerifC19", "level": "exploration",
+    "tiers": tiers(300, 4, 4000, 16),
+    "rule": "rapid-generated imports run through the real doBatchInsert / csvToSql / colDataTypes against a real RelationService: a destination table of 1-6 columns over the four types (column types read back from the real catalog), an injective list of mapped destination columns with arbitrary source indexes "
+            "(repeats allowed), separator in {',', ';', tab, '|'}, 0-3 pre-existing rows, and a stream of 1-25 records built by class so that the expected outcome of each record is known by construction: valid (numbers in plain / zero-padded / signed / extreme forms, every accepted boolean spelling in any case, "
+            "strings containing the separator, quotes, line feeds), \\N in a mapped field, unparsable or out-of-range value for the column type, short record, bare quote in an unquoted field, text after a closing quote, extra fields, oversize string. "
+            "Oracle: exactly one ok/error event per record, in record order and of the expected kind; afterwards Fetch returns the pre-existing rows untouched followed by exactly the accepted records in input order, mapped columns holding the converted values, unmapped columns NULL. "
+            "Non-trivial: a rejected record strictly between two accepted ones and at least one \\N; distinct by case JSON.",
+    "technique": "property-based testing (rapid) with record streams constructed by class against by-construction expectations (in-package, real storage)",
+    "level_text": "Random search over schemas, mappings, separators and record streams. Search, not proof.",
+    "level_note": "Trusted: the CSV rendering in the test (RFC 4180 quoting) and Go's encoding/csv for well-formed input. No carriage returns (the stdlib reader rewrites CRLF, which is not mkdb's doing).",
+}
+
 HOOK_COMMITS = ["7ca683e"]
 
 NOT_APPLICABLE = {}
